@@ -18,7 +18,7 @@ def norm(t):
 
 
 def skeleton(f):
-    """the function as a sequence of canonical statements in source order (conditions as canonical atoms, log calls by name)"""
+    """the function as a sequence of canonical statements in source order (conditions as canonical atoms; log and trace calls left out)"""
     out = []
     for b in sorted(f.blocks, reverse=True):
         blk = f.blocks[b]
@@ -30,7 +30,7 @@ def skeleton(f):
             else:
                 t = P.K(st)
             if 'htp_log(' in t or 'fprintf(' in t or 'fprint_raw_data' in t:
-                t = 'LOG'
+                continue                                   # log and trace calls are not compared (the debug configuration traces one side more than the other)
             out.append(norm(re.sub(r'\s+', ' ', t)))
     return out
 
